@@ -322,7 +322,7 @@ def op_term(op):
         return "HCrashWrite %s None %s %s %d" % (vlib.coq_bool(op.get("txn", False)), s2l(op["ds"]),
                                                  vlib.coq_list([ent_term(e) for e in op["ents"]]), op["crashpt"])
     if k == "ctxtxn" and op.get("crashpt") is not None:
-        return "HCrashWrite true (Some %d) %s %s %d" % (op["k"], s2l(op["ds"]), vlib.coq_list([ent_term(e) for e in op["ents"]]),
+        return "HCrashWrite true (Some %d%%nat) %s %s %d" % (op["k"], s2l(op["ds"]), vlib.coq_list([ent_term(e) for e in op["ents"]]),
                                                         op["crashpt"])
     if k == "batch":
         return "HBatch %s %s %s" % (vlib.coq_bool(op.get("txn", False)), s2l(op["ds"]), vlib.coq_list([ent_term(e) for e in op["ents"]]))
